@@ -90,9 +90,11 @@ Proof. exact acf_struct_blob. Qed.
 Print Assumptions Structured_definition_is_AddCashFlow.
 
 (* ---- concrete zones ---- *)
-Ltac crunch vdef :=
-  unfold holds, eqn_val, zone_F, F_sum, paid, received; simpl; unfold tval_in; simpl;
-  unfold qualify, vname; simpl; unfold vdef; simpl; lra.
+Lemma all_in {A : Type} (P : A -> Prop) (l : list A) : Forall P l -> forall x, In x l -> P x.
+Proof. apply Forall_forall. Qed.
+Print Assumptions all_in.
+Ltac crunch := vm_compute; lra.
+Ltac crunch_all := refine (all_in _ _ _); vm_compute; repeat constructor; try (intros _); lra.
 
 Definition sec (i : nat) (c : string) (tx : bool) (vs : list (string * eqn)) : sector :=
   mkSector i c "CA" c true tx false [] vs.
@@ -127,8 +129,8 @@ Proof.
   split.
   { intros s Hin. simpl in Hin. destruct Hin as [<-|[<-|[<-|[]]]]; vm_compute; intros; try discriminate; split; reflexivity. }
   split.
-  { intros s' Hin. vm_compute in Hin. destruct Hin as [<-|[<-|[<-|[]]]]; intros _; crunch val1. }
-  crunch val1.
+  { crunch_all. }
+  crunch.
 Qed.
 Print Assumptions Tax_hypotheses_satisfiable.
 
@@ -149,8 +151,8 @@ Proof.
   split; [vm_compute; reflexivity|]. split.
   { intros s Hin. simpl in Hin. destruct Hin as [<-|[<-|[<-|[]]]]; vm_compute; intros; try reflexivity; try discriminate; exact I. }
   split.
-  { intros s' Hin. vm_compute in Hin. destruct Hin as [<-|[<-|[<-|[]]]]; intros _; crunch val1. }
-  crunch val1.
+  { crunch_all. }
+  crunch.
 Qed.
 Print Assumptions Tax_recipient_taxable_refuted.
 
@@ -272,8 +274,8 @@ Proof.
   split; [repeat constructor; simpl; intuition discriminate|].
   split; [repeat constructor; intros _; left; vm_compute; exact I|].
   split.
-  { intros s' Hin. vm_compute in Hin. destruct Hin as [<-|[<-|[<-|[]]]]; crunch val2. }
-  crunch val2.
+  { crunch_all. }
+  crunch.
 Qed.
 Print Assumptions Dividends_hypotheses_satisfiable.
 
@@ -307,10 +309,10 @@ Proof.
   split; [repeat constructor; simpl; intuition discriminate|].
   split; [repeat constructor; intros _; left; vm_compute; exact I|].
   split.
-  { intros s' Hin. vm_compute in Hin. destruct Hin as [<-|[<-|[<-|[]]]]; crunch val3. }
+  { crunch_all. }
   split.
   { eexists. split; [vm_compute; reflexivity|]. simpl. tauto. }
-  crunch val3.
+  crunch.
 Qed.
 Print Assumptions Dividends_orig_refuted.
 
@@ -326,7 +328,7 @@ Theorem Dividends_orig_business_recipient_refuted :
   (zone_F val3 country2_orig = zone_F val3 country2 - 1)%R.
 Proof.
   split; [vm_compute; reflexivity|]. split.
-  { intros s' Hin. vm_compute in Hin. destruct Hin as [<-|[<-|[<-|[]]]]; crunch val3. }
-  crunch val3.
+  { crunch_all. }
+  crunch.
 Qed.
 Print Assumptions Dividends_orig_business_recipient_refuted.
